@@ -496,3 +496,94 @@ def c01_10(ctx):
     ctx.count(1, c.where())
     if U(c.node).count('res.apply(value, **{self._key: key})') < 2:
         ctx.fail(c, c.node, 'derived values are not computed on the running result with key = <name of the derived value> as a default parameter')
+
+
+@obligation('C01.11', 'TABLES (dispatch / guard tables, truth-table equivalence)', 'dictable.__getitem__, get, concat, __add__, __setitem__, __init__; dict_concat; lens',
+            'row access, slicing, masking, integer lists, projection and concatenation dispatch on the kind of their argument: each kind must reach its own action (tests compared by truth table, actions by their first statement)',
+            axioms=('A1',))
+def c01_11(ctx):
+    r = ctx.repo
+    g = r.fn('_dictable:dictable.__getitem__')
+    expect_guards(ctx, g, [
+        ('is_arr(item) and len(item.shape) == 1', 'item = list(item)', 'a 1-d array is a list of row numbers / mask'),
+        ('isinstance(item, slice)', 'return type(self)({key: value[item] for key, value in self.items()})', 'slicing rows slices every column'),
+        ('isinstance(item, (dict_keys, dict_values, range))', 'item = list(item)', 'ranges and key views are lists'),
+        ('len(item) == 0', 'return type(self)(data=[], columns=self.keys())', 'an empty selection keeps the columns'),
+        ('is_strs(item)', 'return type(self)(super(dictable, self).__getitem__(item))', 'a list of names is a projection'),
+        ('is_bools(item)', 'res = type(self)([row for row, tf in zipper(list(self), item) if tf])', 'a mask keeps the flagged rows'),
+        ('is_ints(item)', 'values = list(zip(*self.values()))', 'integer lists pick rows by position'),
+        ('is_int(item)', 'return self._dict({key: value[item] for key, value in self.items()})', 'd[i] is the i-th record'),
+        ('item in self.keys()', 'return super(dictable, self).__getitem__(item)', 'd[c] is the column c'),
+        ('is_tuple(item)', 'return list(zip(*[self[i] for i in item]))', 'd[c1, c2] zips the columns'),
+        ('callable(item)', 'return self.apply(item)', 'a callable is applied row by row'),
+    ])
+    ctx.count(1)
+    ints = [s for s in ast.walk(g.node) if isinstance(s, ast.Return) and 'values[i] for i in item' in U(s.value)]
+    if not ints or N(ints[0].value) != NS('type(self)(data=[values[i] for i in item], columns=self.keys())'):
+        ctx.fail(g, ints[0] if ints else g.node, 'an integer list does not rebuild the table from those rows with the same columns')
+    top = [s for s in g.body if isinstance(s, ast.If)]
+    order = [N(t) for s in top for t, b in if_chain(s) if t is not None]
+    if order.index('isinstance(item, list)') > order.index('is_int(item)') if 'isinstance(item, list)' in order and 'is_int(item)' in order else False:
+        ctx.fail(g, g.node, 'lists are dispatched after scalars')
+    raises = [U(x.exc)[:8] for x in ast.walk(g.node) if isinstance(x, ast.Raise)]
+    if sorted(raises) != ['KeyError', 'ValueErr']:
+        ctx.fail(g, g.node, 'unknown items no longer raise KeyError / unknown lists ValueError: %s' % raises)
+    f = r.fn('_dictable:dictable.get')
+    expect_guards(ctx, f, [('key in self', 'return self[key]', 'an existing column is returned')], where=f.body)
+    ctx.count(1)
+    dflt = [x for x in returns_of(f.node) if 'default' in U(x.value)]
+    if not dflt or N(dflt[0].value) != NS('[default] * len(self)'):
+        ctx.fail(f, dflt[0] if dflt else f.node, 'a missing column is not [default] * len(self)')
+    c = r.fn('_dictable:dictable.concat')
+    expect_guards(ctx, c, [('len(others) == 0', 'return cls()', 'nothing to concatenate'), ('len(others) == 1', 'return others[0]', 'a single table')], where=c.body)
+    ctx.count(1)
+    oth = [N(s.value) for s in c.body if isinstance(s, ast.Assign) and U(s.targets[0]) == 'others']
+    if oth != ['as_list(others)', NS('[cls(other) if not isinstance(other, cls) else other for other in others]')]:
+        ctx.fail(c, c.node, 'the operands are not normalised as a list of tables (records converted with cls(other)): %s' % oth)
+    a = r.fn('_dictable:dictable.__add__')
+    expect_guards(ctx, a, [('other is None or (is_num(other) and other == 0)', 'return self', 'sum() starts from 0')], where=a.body)
+    d = r.fn('_dictable:dict_concat')
+    expect_guards(ctx, d, [('len(dicts) == 0', 'return {}', 'no record'), ('len(dicts) == 1', 'return {key: [value] for key, value in dicts[0].items()}', 'one record'),
+                           ('len(possible_keys) == 1', 'pairs = [sorted(d.items()) for d in dicts]', 'all records share their keys')])
+    ctx.count(1)
+    defs = {U(s.targets[0]): N(s.value) for s in ast.walk(d.node) if isinstance(s, ast.Assign)}
+    want = {'dicts': 'as_list(dicts)', 'possible_keys': 'list(set([tuple(sorted(d.keys())) for d in dicts]))', 'keys': None, 'values': 'zip(*[[value for _, value in row] for row in pairs])',
+            'res': 'dict(zip(keys, map(list, values)))'}
+    for k, w in want.items():
+        if w is not None and defs.get(k) != w:
+            ctx.fail(d, d.node, 'dict_concat: `%s = %s`, expected `%s`' % (k, defs.get(k), w), stmt='dict_concat %s' % k)
+    ks = [N(s.value) for s in ast.walk(d.node) if isinstance(s, ast.Assign) and U(s.targets[0]) == 'keys']
+    if ks != ['possible_keys[0]', NS('reduce(lambda res, keys: res | set(keys), possible_keys, set())')]:
+        ctx.fail(d, d.node, 'dict_concat keys are %s' % ks)
+    s_ = r.fn('_dictable:dictable.__setitem__')
+    ctx.count(1, s_.where())
+    if not any(isinstance(x, ast.Assign) and U(x.targets[0]) == s_.params[2] and N(x.value) == '_value(%s)' % s_.params[2] for x in s_.body):
+        ctx.fail(s_, s_.node, 'the assigned value is not normalised to a list with _value (scalars become one-element lists that broadcast)')
+    st = [x for x in ast.walk(s_.node) if isinstance(x, ast.Call) and isinstance(x.func, ast.Attribute) and x.func.attr == '__setitem__']
+    if not st or N(st[0].args[0]) != NS('str(key) if is_int(key) else key') or N(st[0].func.value) != 'super(dictable, self)':
+        ctx.fail(s_, st[0] if st else s_.node, 'the column is not stored through the base class under its (string) name')
+    i = r.fn('_dictable:dictable.__init__')
+    ctx.count(1, i.where())
+    seq = [' '.join(U(x).split()) for x in i.body if isinstance(x, (ast.Assign, ast.Expr))]
+    want_seq = ['kwargs = {key: _value(value) for key, value in kwargs.items()}',
+                'data_kwargs = {key: _value(value) for key, value in _data_columns_as_dict(data, columns).items()}',
+                'kwargs.update(data_kwargs)']
+    if seq[:3] != want_seq:
+        ctx.fail(i, i.node, 'construction does not gather keyword columns and data columns (both through _value) into one mapping: %s' % seq[:3])
+    hd = [x for x in i.body if isinstance(x, ast.If) and 'is_strs(columns)' in U(x.test)]
+    if hd:
+        ok, w = prop_equiv(hd[0].test, 'is_strs(columns) and (len(data_kwargs) == 0 or not is_str(columns))')
+        if not ok or N(hd[0].body[0].value) != NS('{key: kwargs.get(key, [None]) for key in columns} if len(kwargs) > 0 else {key: [] for key in columns}'):
+            ctx.fail(i, hd[0], 'tables built from explicit column names: `if %s: %s`' % (U(hd[0].test), U(hd[0].body[0])[:100]), witness=w)
+    sup = [x for x in ast.walk(i.node) if isinstance(x, ast.Call) and isinstance(x.func, ast.Attribute) and x.func.attr == '__init__']
+    if not sup or N(sup[0].func.value) != 'super(dictable, self)':
+        ctx.fail(i, sup[0] if sup else i.node, 'the base initialiser is not reached through super(dictable, self)')
+    l = r.fn('_zip:lens')
+    expect_guards(ctx, l, [('len0(values) == 0', 'return 0', 'no columns, no rows')], where=l.body)
+    v = r.fn('_dictable:_value')
+    expect_guards(ctx, v, [('value is None', 'return [None]', 'None is a one-cell column'),
+                           ('isinstance(value, (dict_values, dict_keys, range))', 'return list(value)', 'views are materialised')])
+    ctx.count(1)
+    rr = returns_of(v.node)
+    if not rr or N(rr[-1].value) != NS('list(value) if isinstance(value, tuple) else as_list(value)'):
+        ctx.fail(v, v.node, '_value does not turn tuples into lists and scalars into one-element lists')
